@@ -58,6 +58,8 @@ pub enum Mutation {
     InnerTrailing(u8),
     InnerDirtyWord(u8),
     InnerDirtyPadding,
+    /// cut the nested message (the wrapper stays canonical); also decoded on its own
+    InnerTruncate(u16),
 }
 
 #[derive(Serialize, Deserialize, Clone, Debug, PartialEq, Eq, Hash)]
@@ -182,7 +184,7 @@ impl World for WorldC {
             let op = match rng.weighted(&[4, 10, 1]) {
                 0 => COp::Msg(gen_msg(rng)),
                 1 => {
-                    let m = match rng.below(14) {
+                    let m = match rng.below(16) {
                         0 => Mutation::BitFlip(rng.next_u64() as u32),
                         1 => Mutation::WordAdd { word: rng.below(24) as u16, delta: *rng.pick(&[1i16, -1, 32, -32, 31, 64]) },
                         2 => Mutation::WordHuge { word: rng.below(24) as u16 },
@@ -196,7 +198,8 @@ impl World for WorldC {
                         10 => Mutation::HighBitsInTag,
                         11 => Mutation::InnerTrailing(rng.below(3) as u8),
                         12 => Mutation::InnerDirtyWord(rng.below(2) as u8),
-                        _ => Mutation::InnerDirtyPadding,
+                        13 => Mutation::InnerDirtyPadding,
+                        _ => Mutation::InnerTruncate(rng.below(700) as u16),
                     };
                     COp::Hostile { base: gen_msg(rng), m }
                 }
@@ -288,6 +291,10 @@ impl World for WorldC {
                             let l = inner.len();
                             inner[l - 1] ^= 0x01;
                         }
+                        Mutation::InnerTruncate(n) => {
+                            let keep = *n as usize % inner.len();
+                            inner.truncate(keep);
+                        }
                         _ => {}
                     }
                     let mut bytes = enc_hub(outer_tag, h.chain.as_bytes(), &inner);
@@ -332,6 +339,7 @@ impl World for WorldC {
                         Mutation::InnerTrailing(_) => "inner_trailing_word",
                         Mutation::InnerDirtyWord(_) => "inner_dirty_static_word",
                         Mutation::InnerDirtyPadding => "inner_dirty_padding",
+                        Mutation::InnerTruncate(_) => "inner_truncated",
                     }));
                     if !check_bytes(&env, ctx, &bytes, "mutated encoding") {
                         break;
